@@ -20,12 +20,13 @@ SEL = {"ALL": sdn.ALL, "INSIDE": sdn.INSIDE, "OUTSIDE": sdn.OUTSIDE}
 def _(w, e):
     seq = [need(w, h) for h in e["path"]] + [need(w, h) for h in e["item"]]
     start = HRef.from_sequence(seq)
+    m = e.get("via") == "method"   # the shortcut spelling  href.get_hx(...)  of  sdn.get_hx(href, ...)
     if e["fn"] == "hwires":
-        res = list(sdn.get_hwires(start, selection=SEL[e["sel"]]))
+        res = list(start.get_hwires(selection=SEL[e["sel"]]) if m else sdn.get_hwires(start, selection=SEL[e["sel"]]))
     elif e["fn"] == "hcables":
-        res = list(sdn.get_hcables(start, selection=SEL[e["sel"]]))
+        res = list(start.get_hcables(selection=SEL[e["sel"]]) if m else sdn.get_hcables(start, selection=SEL[e["sel"]]))
     else:
-        res = list(sdn.get_hpins(start))
+        res = list(start.get_hpins() if m else sdn.get_hpins(start))
     w.last_trace = (start, res)
 
 
@@ -41,6 +42,12 @@ class TraceGen:
         self.left = cfg["n_traces"]
 
     def __call__(self):
+        e = self.draw()
+        if e is not None and self.r.random() < 0.3:
+            e["via"] = "method"
+        return e
+
+    def draw(self):
         if self.left <= 0:
             return None
         self.left -= 1
